@@ -315,7 +315,6 @@ fn make_digits(a: &impl BigInteger, w: usize, num_bits: usize) -> impl Iterator<
 /// Entry points for the verification harness (compiled only with `--cfg arkworks_rs_algebra_verif`):
 /// the two bucket methods behind `msm_bigint` and the signed-digit recoding are private, and the
 /// plain bucket method is unreachable from any shipped group (they all have cheap negation).
-#[allow(unexpected_cfgs)]
 #[cfg(arkworks_rs_algebra_verif)]
 pub mod verif_hooks {
     use super::*;
